@@ -300,3 +300,91 @@ Definition decode_selected (v : variant) (names : list (list Z)) (b : buf) (idx 
   all_some (map (fun i => option_map (decode_at v names (bf_data b)) (py_index (bf_starts b) i)) idx).
 Definition eof_marker : list Z :=
   [31; 139; 8; 4; 0; 0; 0; 0; 0; 255; 6; 0; 66; 67; 2; 0; 27; 0; 3; 0; 0; 0; 0; 0; 0; 0; 0; 0].
+
+(* ================================================================= round 6: auxiliary area, gzip members *)
+(* the same record with another auxiliary (TAG) area.  bionumpy never interprets the auxiliary fields
+   (tag[2] val_type[1] value of types A c C s S i I f Z H B): bionumpy/io/bam.py has no code for them; they are the
+   bytes from the end of the qualities to the end of the block and travel with the record as raw bytes *)
+Definition with_tags (r : brec) (t : list Z) : brec :=
+  {| b_ref := b_ref r; b_pos := b_pos r; b_mapq := b_mapq r; b_bin := b_bin r; b_flag := b_flag r;
+     b_name := b_name r; b_cigar := b_cigar r; b_seq := b_seq r; b_qual := b_qual r;
+     b_nref := b_nref r; b_npos := b_npos r; b_tlen := b_tlen r; b_tags := t |}.
+
+(* --- the gzip layer as far as the reader depends on it.  EXTERNAL code (CPython gzip._GzipReader under
+       io.BufferedReader, reached through gzip.open(...).read(n)); modelled to say precisely what assumption A-GZIP
+       means.  A file = the list of its members' inflated payloads (BGZF blocks, plain gzip members, empty members
+       such as the BGZF EOF block, anywhere in the file).
+   _GzipReader.read(size), size > 0: at most [size] bytes of the current member; at the end of a member the next
+   one is opened; a member without data is passed over; b"" only when no member is left. *)
+Fixpoint raw_read (size : nat) (ms : list (list Z)) : list Z * list (list Z) :=
+  match ms with
+  | [] => ([], [])
+  | [] :: rest => raw_read size rest
+  | m :: rest => (firstn size m, skipn size m :: rest)
+  end.
+(* BufferedReader.read(n): raw reads until n bytes are there or the raw stream is at its end (fuel: None = exhausted) *)
+Fixpoint buffered_read (fuel : nat) (n : nat) (ms : list (list Z)) : option (list Z * list (list Z)) :=
+  match n with
+  | O => Some ([], ms)
+  | S _ =>
+      match fuel with
+      | O => None
+      | S f =>
+          let '(got, ms') := raw_read n ms in
+          match got with
+          | [] => Some ([], ms')
+          | _ => match buffered_read f (n - length got) ms' with
+                 | Some (more, ms'') => Some (got ++ more, ms'')
+                 | None => None
+                 end
+          end
+      end
+  end.
+(* file_obj.read(n) on the gzip stream whose remaining members are [ms] *)
+Definition stream_read (n : Z) (ms : list (list Z)) : option (list Z * list (list Z)) :=
+  buffered_read (Z.to_nat n) (Z.to_nat n) ms.
+(* the chunk reader of [read_chunks_fuel], reading from the members through stream_read *)
+Fixpoint read_chunks_members_fuel (fuel : nat) (k : Z) (ms : list (list Z)) (prepend : list Z) : option (list buf) :=
+  match fuel with
+  | O => None
+  | S f =>
+      match stream_read k ms with
+      | None => None
+      | Some (raw, ms') =>
+          if len raw =? 0 then
+            match prepend with
+            | [] => Some []
+            | _ => match from_raw_buffer (add_newline prepend) with
+                   | None => None
+                   | Some b => match bf_starts b with [] => Some [] | _ => Some [b] end
+                   end
+            end
+          else
+            let finished := is_finished (len raw) k in
+            let chunk := prepend ++ (if finished then add_newline raw else raw) in
+            match from_raw_buffer chunk with
+            | None => None
+            | Some b =>
+                match bf_starts b with
+                | [] => Some []
+                | _ => let prepend' := if finished then [] else skipn (Z.to_nat (buf_size b)) chunk in
+                       option_map (cons b) (read_chunks_members_fuel f k ms' prepend')
+                end
+            end
+      end
+  end.
+Definition read_chunks_members (k : Z) (ms : list (list Z)) : option (list buf) :=
+  read_chunks_members_fuel (S (S (length (concat ms)))) k ms [].
+(* a sequence of reads file.read(n1); file.read(n2); ... (BamHeader.read_header: read(4), read(4), read(l_text), read(4),
+   then per reference read(4), read(1) ... read(1), read(4)) *)
+Fixpoint stream_reads (ns : list Z) (ms : list (list Z)) : option (list (list Z) * list (list Z)) :=
+  match ns with
+  | [] => Some ([], ms)
+  | n :: r => match stream_read n ms with
+              | None => None
+              | Some (d, ms') => match stream_reads r ms' with
+                                 | None => None
+                                 | Some (ds, ms'') => Some (d :: ds, ms'')
+                                 end
+              end
+  end.
